@@ -286,7 +286,41 @@ def r4_display_logic(ctx, rep):
                f"with proc_internals off", py.nloc(first))
 
 
+def r5_graph_links_and_constructor(ctx, rep):
+    py = ctx.py
+    # graph links: only the visibility-gated attribs["URL"] may become an href
+    n = 0
+    base_init = py.func("BaseNode.__init__")
+    for node in ast.walk(py.modules["graphs"]):
+        if isinstance(node, ast.Attribute) and node.attr == "url" and isinstance(node.ctx, ast.Load):
+            fn = py.enclosing_function(node)
+            if fn is base_init:
+                continue
+            n += 1
+            rep.ob(f"graphs.{fn.name if fn else '?'} reads node.url", False,
+                   f"`{ast.unparse(node)}` is the ungated entity URL (set for hidden entities too); links must use "
+                   f"attribs['URL'], which BaseNode.__init__ sets only for visible entities: a graph rendered as a table "
+                   f"links to pages of unselected entities", py.nloc(node))
+    tb = py.func("FortranGraph._make_graph_as_table")
+    t = ast.unparse(tb)
+    ok = "attribs['URL']" in t and "except KeyError" in t
+    rep.ob("table-form graphs link through attribs['URL']", ok,
+           "rows without a (visible) URL are rendered as plain text" if ok else
+           "_make_graph_as_table no longer takes the link from attribs['URL']", py.nloc(tb))
+    ok = "self.attribs['URL']" in ast.unparse(base_init) and "getattr(obj, 'visible', True)" in ast.unparse(base_init)
+    rep.ob("BaseNode sets attribs['URL'] only for visible entities", ok, "", py.nloc(base_init))
+    # a structure-constructor interface is selected together with its type
+    tc = py.func("FortranType.correlate")
+    ok = "self.constructor.permission = self.permission" in ast.unparse(tc)
+    rep.ob("constructor interface takes the accessibility of its type before pruning", ok,
+           "type.correlate copies the type's permission onto the same-named constructor, prune() runs afterwards" if ok else
+           "FortranType.correlate no longer gives the constructor the type's permission: process_attribs hands a "
+           "`public/private :: name` statement to the type only, so the same-named generic interface is filtered with "
+           "the module default (hidden although selected, or documented although unselected)", py.nloc(tc))
+
+
 RULES = [
+    RuleSpec("C05.R5", r5_graph_links_and_constructor, "graph links are visibility-gated; constructors follow their type", floor=3),
     RuleSpec("C05.R1", r1_prune_coverage, "prune covers every rendered child collection", floor=20),
     RuleSpec("C05.R2", r2_lists_after_prune, "page lists are gathered after pruning", floor=8),
     RuleSpec("C05.R3", r3_links_to_visible, "hrefs to other entities are visibility-guarded", floor=3),
